@@ -124,6 +124,29 @@ class Context:
     def note(self, s: str):
         self.notes.append(s)
 
+    def include(self, other_prop: str, select, prefix: str):
+        """Run the rules of another property and adopt the selected ones under this
+        property (ids become `prefix` + the part after the other property's id).  Used
+        where two properties rest on the same necessary condition."""
+        import importlib
+        mod = importlib.import_module("sa.rules.%s" % other_prop)
+        sub = Context(self.prop, self.idx, self.tier)
+        mod.run(sub)
+        select = set(select)
+        for r in sub.rules:
+            if r.id in select:
+                r.id = prefix + r.id[len(other_prop):]
+                for v in r.violations:
+                    v.rule = r.id
+                self.rules.append(r)
+        for e in sub.analysis_errors:
+            if any(e.startswith(x + ":") or e.startswith(x + " ") for x in select):
+                self.analysis_errors.append("%s (included from %s) %s" % (prefix, other_prop, e))
+        got = {r.id for r in self.rules}
+        for x in select:
+            if prefix + x[len(other_prop):] not in got and not any(x in e for e in sub.analysis_errors):
+                self.analysis_errors.append("%s: included rule %s of %s did not run" % (prefix, x, other_prop))
+
     @property
     def thorough(self) -> bool:
         return self.tier == "thorough"
